@@ -140,6 +140,29 @@ Qed.
 Lemma increasing_of_script_ok tbl : forall rest c, script_ok tbl c rest -> increasing c rest.
 Proof. induction rest as [|n rest IH]; intros c H; [exact I|]. destruct H as [[H1 _] H2]. split; [exact H1|exact (IH n H2)]. Qed.
 
+(* ---- the millisecond rows of from_bpm_changes_snap(reseat=False) sit at the change times ---- *)
+Lemma linked_rows : forall rest off p brest, linked off p rest brest ->
+  Forall2 (fun b x => bo_bpm b = bs_bpm x /\ bo_met b = bs_met x) brest rest
+  /\ Forall2 (fun b t => bo_off b == t) brest (change_times_go off p rest).
+Proof.
+  induction rest as [|c rest IH]; intros off p brest H; destruct brest as [|b brest]; cbn [linked] in H; try contradiction.
+  - split; constructor.
+  - destruct H as (A & B & C & D). cbn [change_times_go].
+    set (t1 := off + beat_len (bs_bpm p) * seg_beats (bs_met p) (bs_snap p) (bs_snap c)) in *.
+    destruct (IH t1 c brest (linked_comp _ _ _ _ _ C D)) as [I1 I2]. split; constructor; auto.
+Qed.
+
+Lemma forall2_by_index {A B C} (R : A -> C -> Prop) (P : B -> C -> Prop) : forall (la : list A) (lb : list B) (lc : list C),
+  Forall2 R la lc -> length lb = length la ->
+  (forall i x, nth_error lb i = Some x -> exists u, nth_error lc i = Some u /\ P x u) ->
+  Forall2 (fun a x => exists u, R a u /\ P x u) la lb.
+Proof.
+  induction la as [|a la IH]; intros lb lc F L H; destruct lb as [|x lb]; try discriminate; [constructor|].
+  inversion F as [|a0 u0 la0 lc' Hau F']; subst. constructor.
+  - destruct (H 0%nat x eq_refl) as (u' & N & Pu). cbn in N. inversion N; subst. exists u'. auto.
+  - apply (IH lb lc' F'); [cbn in L; lia|]. intros i y N. exact (H (S i) y N).
+Qed.
+
 Section Script.
 Variables (tbl : list Q) (types : list (text * option Z)).
 Let cf := ref_conf tbl types.
@@ -222,6 +245,44 @@ Proof.
     destruct (IH K) as (b0 & B1 & B2). exists b0. split; [right; exact B1|exact B2]. }
   destruct (G _ _ F2 Hp) as (b & Hb & [Eb _]). exists b. split; [exact Hb|]. rewrite Eb, Ep, Et, Eu. reflexivity.
 Qed.
+
+(* tempo changes on measure lines: no reseating at all, the chart's tempo list is the script's ms form, row by row *)
+Theorem tempo_rows_lines : forallb (fun x => Qeq_bool (s_b (bs_snap x)) 0) script = true ->
+  exists rb, from_bcs_reseat init bcss = Some rb /\
+    Forall2 (fun b x => bo_off b == time_of init script (bs_snap x) /\ bo_bpm b = bs_bpm x /\ bo_met b = bs_met x) rb script.
+Proof.
+  intro HL. pose proof (script_dom [] ltac:(intros q [])) as D. pose proof script_increasing as Inc. pose proof script_sort_id as SS.
+  rewrite reseat_bcss. unfold from_bcs_reseat. rewrite SS. clear Hfirst.
+  destruct script as [|c0 rest]; [discriminate|].
+  unfold domainb in D. apply andb_true_iff in D. destruct D as [D _]. apply andb_true_iff in D. destruct D as [D DS].
+  apply andb_true_iff in D. destruct D as [D DB]. apply andb_true_iff in D. destruct D as [D DM].
+  assert (N0 : node_ok c0) by (apply node_okb_sound; exact D).
+  assert (SO : script_ok tbl c0 rest) by (apply script_okb_sound; exact DS).
+  rewrite DM, DB. cbn [andb negb].
+  assert (EX : existsb (fun c => negb (Qeq_bool (s_b (bs_snap c)) 0)) (c0 :: rest) = false).
+  { apply not_true_is_false. intro K. apply existsb_exists in K. destruct K as (x & Hx & Kx). rewrite forallb_forall in HL.
+    rewrite (HL x Hx) in Kx. discriminate. }
+  rewrite EX.
+  destruct (from_bcs_go_linked tbl rest init c0 N0 SO) as (brest & F1 & F2).
+  assert (Efrom : from_bcs init (c0 :: rest) = Some (mkBco (bs_bpm c0) (bs_met c0) init :: brest)).
+  { unfold from_bcs. rewrite SS.
+    rewrite DM, DB. cbn [andb negb]. rewrite F1. reflexivity. }
+  rewrite Efrom. eexists. split; [reflexivity|]. destruct (linked_rows rest init c0 brest F2) as [L1 L2]. constructor.
+  - cbn [bo_off bo_bpm bo_met time_of]. rewrite (time_of_go_self init c0 rest Inc). repeat split; reflexivity.
+  - assert (Len : length rest = length brest) by (clear -L1; induction L1; cbn; congruence).
+    pose proof (forall2_by_index (fun b t => bo_off b == t) (fun x t => time_of_go init c0 rest (bs_snap x) == t) brest rest _ L2 Len) as G.
+    assert (G' : Forall2 (fun b x => exists u, bo_off b == u /\ time_of_go init c0 rest (bs_snap x) == u) brest rest).
+    { apply G. intros i x N. destruct (time_of_go_change rest init c0 i x Inc N) as (u & Nu & Eu). exists u. auto. }
+    clear G.
+    assert (CB : forall (R1 R2 : bco -> bcs -> Prop) la lb, Forall2 R1 la lb -> Forall2 R2 la lb -> Forall2 (fun a b => R2 a b /\ R1 a b) la lb).
+    { intros R1 R2 la lb F. induction F; intro F'; inversion F'; subst; constructor; auto. }
+    pose proof (CB _ _ _ _ L1 G') as F.
+    assert (GE : forall (g : bcs -> Q) la lb,
+              Forall2 (fun (a : bco) (b : bcs) => (exists u, bo_off a == u /\ g b == u) /\ bo_bpm a = bs_bpm b /\ bo_met a = bs_met b) la lb ->
+              Forall2 (fun b x => bo_off b == g x /\ bo_bpm b = bs_bpm x /\ bo_met b = bs_met x) la lb).
+    { intros g la lb F0. induction F0 as [|b x la lb [(u & U1 & U2) [A B]] _ IH]; constructor; [|exact IH]. split; [rewrite U1, U2; reflexivity|split; assumption]. }
+    exact (GE (fun x => time_of_go init c0 rest (bs_snap x)) _ _ F).
+Qed.
 End Script.
 
 (* ------------------------------------------------------------------ _read_notes *)
@@ -256,6 +317,9 @@ Definition notes_cmp (n : notes_out) : Prop :=
   forall l4, In l4 [simple4 (o_hits n); hold4 (o_holds n); hold4 (o_rolls n); simple4 (o_mines n); simple4 (o_lifts n);
                     simple4 (o_fakes n); simple4 (o_keys n)] ->
   forall x y, In x l4 -> In y l4 -> cmp_ok note4_lt x y.
+Definition tempo_lines (bpms : list (Q * Q * Q)) : Prop :=
+  forallb (fun x => Qeq_bool (s_b (bs_snap x)) 0) script = true ->
+  Forall2 (fun (b : Q * Q * Q) x => fst (fst b) == time_of init script (bs_snap x) /\ snd (fst b) = bs_bpm x /\ snd b = 4) bpms script.
 Definition tempo_rel (bpms : list (Q * Q * Q)) : Prop :=
   forall x, In x script -> exists b, In b bpms /\ fst (fst b) == time_of init script (bs_snap x).
 
@@ -275,7 +339,7 @@ Theorem read_notes_denotes l ms_d keysZ op notes ns : (3 <= keysZ <= 8)%Z ->
   denote_measures ms_d keysZ 0 time (repeat None (Z.to_nat keysZ)) [] [] = Some (op, notes, ns) ->
   forallb (fun o : option (kind * Q) => match o with None => true | Some _ => false end) op = true ->
   Forall (fun n => (n mod 4 = 0)%Z) ns ->
-  exists n, read_notes cf l (Some init) (Some bcss) true = Some n /\ notes_rel (rev notes) n /\ tempo_rel (o_bpms n) /\ notes_cmp n.
+  exists n, read_notes cf l (Some init) (Some bcss) true = Some n /\ notes_rel (rev notes) n /\ tempo_rel (o_bpms n) /\ notes_cmp n /\ tempo_lines (o_bpms n).
 Proof.
   intros Hk Hrows D Hop Hns. set (keys := Z.to_nat keysZ). assert (Hkeys : (keys <= 18)%nat) by (unfold keys; lia).
   (* the reader's loop *)
@@ -315,13 +379,13 @@ Proof.
     change (map (fun e : kind * Z * snap => snd e) (rev (n_simple st)) ++ hold_snaps (n_holds st) ++ hold_snaps (n_rolls st)) with (queries st).
     change (k_tbl cf) with tbl. rewrite TO. fold mp. rewrite C1, C2. cbn [andb negb].
     rewrite !ES, !expand_hold_eq, Eh, Er. reflexivity.
-  - unfold notes_rel, tempo_rel, notes_cmp. cbn [o_hits o_holds o_rolls o_mines o_lifts o_fakes o_keys o_bpms].
+  - unfold notes_rel, tempo_rel, notes_cmp, tempo_lines. cbn [o_hits o_holds o_rolls o_mines o_lifts o_fakes o_keys o_bpms].
     assert (PN : forall k, Permutation (dnotes_of k (notes_of_st tauf st)) (dnotes_of k (rev notes))).
     { intro k. apply dnotes_of_perm. eapply perm_trans; [exact (inv_perm _ _ _ _ _ I)|apply Permutation_rev]. }
     assert (PS : forall k, is_simple k = true ->
                Permutation (simple4 (map (fun e : kind * Z * snap => (tauf (snd e), snd (fst e))) (colmajor k (rev (n_simple st)) 18))) (dnotes_of k (rev notes))).
     { intros k Hsk. eapply perm_trans; [|apply PN]. apply (simple_out tauf mp st k _ Hsk FS LS (ES k)). }
-    split; [|split].
+    split; [|split; [|split]].
     + split; [apply PS; reflexivity|].
       split; [rewrite (hold_out_perm tauf mp st KHold (n_holds st) Lh FS' C1 (LH _ (or_introl eq_refl)) ltac:(rewrite expand_hold_eq; exact Eh) (or_introl (conj eq_refl eq_refl))); apply PN|].
       split; [rewrite (hold_out_perm tauf mp st KRoll (n_rolls st) Lr FS' C2 (LH _ (or_intror eq_refl)) ltac:(rewrite expand_hold_eq; exact Er) (or_intror (conj eq_refl eq_refl))); apply PN|].
@@ -341,5 +405,11 @@ Proof.
       intros l4 Hl4. destruct Hl4 as [<-|[<-|[<-|[<-|[<-|[<-|[<-|[]]]]]]]]; try apply SC.
       * unfold hold4 in Fh |- *. rewrite Fh. apply LC. left. reflexivity.
       * unfold hold4 in Fr |- *. rewrite Fr. apply LC. right. reflexivity.
+    + intro HL. destruct (tempo_rows_lines tbl types Hgrid pairs init Hadj Hg48 Hpos Hfirst HL) as (rb' & FR' & F2).
+      unfold bcss in FR. rewrite FR in FR'. inversion FR'; subst rb'.
+      assert (GM : forall (R : bco -> bcs -> Prop) (R' : Q * Q * Q -> bcs -> Prop) (f : bco -> Q * Q * Q) la lb,
+                (forall a b, R a b -> R' (f a) b) -> Forall2 R la lb -> Forall2 R' (map f la) lb).
+      { intros R R' f la lb Hi F0. induction F0; cbn [map]; constructor; auto. }
+      refine (GM _ _ _ _ _ _ F2). intros a b (A & B & C). cbn [fst snd]. auto.
 Qed.
 End Chart.
